@@ -12,7 +12,7 @@ import itertools, random
 
 TAGS = ['v0', 'v1', 'v2']
 MOD = 1000003
-LITS = "+-*/=<>()[],.!&^#@~?"
+LITS = "+-*/=<>()[],.!&^#@~?%\"$:;|{}`'"
 
 
 def tname(g, i):
